@@ -19,7 +19,8 @@ type rdCase struct {
 	Fmt    string `json:"fmt"`
 	Status int    `json:"status"`
 	Cs     string `json:"cs"`
-	Indent string `json:"indent"`
+	Indent string `json:"indent"`  // indentation configured for the format under test
+	Ind2   string `json:"indent2"` // indentation configured for the OTHER encoder (JSONIndent vs XMLIndent)
 	Pos    string `json:"pos"`
 	VSeed  int64  `json:"vseed,omitempty"`
 }
@@ -104,7 +105,10 @@ func rdReplay(raw json.RawMessage, idx int, tr *traceWriter) {
 	}
 	tr.emit(map[string]interface{}{"case": idx, "ev": "reset", "input": c, "nt": true})
 	rng := rand.New(rand.NewSource(c.VSeed))
-	opt := flamego.RenderOptions{Charset: c.Cs, JSONIndent: c.Indent, XMLIndent: c.Indent}
+	opt := flamego.RenderOptions{Charset: c.Cs, JSONIndent: c.Indent, XMLIndent: c.Ind2}
+	if c.Fmt == "XML" {
+		opt.JSONIndent, opt.XMLIndent = c.Ind2, c.Indent
+	}
 	f := flamego.NewWithLogger(io.Discard)
 	resolved, roundtrip, eqStd := false, false, false
 	var doRender func(r flamego.Render)
@@ -201,6 +205,7 @@ func rdGen(seed int64, n int, args []string, out *json.Encoder) {
 		st := 200 + rng.Intn(400)
 		c := rdCase{Fmt: []string{"JSON", "XML", "Binary", "PlainText"}[rng.Intn(4)], Status: st,
 			Cs: []string{"", "latin1", "utf-16", "x"}[rng.Intn(4)], Indent: []string{"", "  ", "\t", "    "}[rng.Intn(4)],
+			Ind2: []string{"", " ", "\t\t", "      "}[rng.Intn(4)],
 			Pos: []string{"after", "after", "after", "before"}[rng.Intn(4)], VSeed: rng.Int63()}
 		_ = out.Encode(c)
 	}
